@@ -577,6 +577,10 @@ class Interp:
         raise Unmodelled('const ' + str(c))
 
     def eval_named_const(self, fr, s):
+        if s.startswith('ZeroSized: '):
+            s = s[11:].strip()
+            if s.startswith('{closure@'):
+                return Adt(s, None, [])
         m = re.match(r'^core::(f64|f32)::<impl f\d+>::(\w+)$', s) or re.match(r'^(f64|f32)::(\w+)$', s)
         if m:
             tab = F64_CONSTS if m.group(1) == 'f64' else F32_CONSTS
@@ -596,6 +600,8 @@ class Interp:
             return ord('/')
         if s.startswith(('PhantomData', 'BuildHasherDefault', 'std::marker::PhantomData', 'std::alloc::Global', 'RandomState')):
             return Opaque(s.split('::')[0])
+        if s.endswith('SizedTypeProperties>::ALIGN') or s.endswith('SizedTypeProperties>::SIZE'):
+            return 1
         if 'MaybeUninit' in s:
             return Opaque('MaybeUninit')
         # enum unit variants / unit structs printed as constants:  Option::<Infallible>::None, VarNamingTag::Numeric
@@ -647,6 +653,9 @@ class Interp:
         cand = self.by_suffix.get('::'.join(s.split('::')[-2:]))
         if cand and len(cand) == 1 and self.prog.bodies[cand[0]].kind in ('const', 'constval'):
             return cand[0]
+        last = s.split('::')[-1]
+        if last in self.prog.bodies and self.prog.bodies[last].kind in ('const', 'constval') and re.match(r'^[A-Z][A-Z0-9_]*$', last):
+            return last
         return None
 
     def enum_variants(self, name):
@@ -982,6 +991,10 @@ class Interp:
         raise Unmodelled('cast kind %s (%s -> %s)' % (kind, src_ty, dst_ty))
 
     def transmute(self, v, src_ty, dst_ty):
+        if type(v) is Adt and len(v.fields) == 1 and type(v.fields[0]) in (Ref, SliceRef) and dst_ty.startswith('*'):
+            return v.fields[0]
+        if dst_ty == 'usize' and type(v) in (Ref, SliceRef):
+            return 0x10000
         if src_ty == 'f64' and dst_ty == 'u64':
             if type(v) is Sym:
                 return Sym(z3.fpToIEEEBV(v.e))
